@@ -57,7 +57,10 @@ Definition c14_ok (c : rcase14) : bool :=
      own feature: multiset against the raw stream), and the whole listing — headers, scenario headers, result lines, parser
      errors — stands in the order of the stream the writer receives, i.e. of what Normalize forwards (ReportersSpec4) *)
   | _ => c14_basic_ok es (r_report c) && c14_basic_attr_ok es (r_report c)
-         && hdr_multiset_ok es (r_report c) && doc_order_ok (normalized_stream c) (r_report c)
+         (* (the header multiset is judged on complete runs only: before run-Finished Normalize may still hold a started
+            feature back, third review L3) *)
+         && (negb (existsb is_finished_ev es) || hdr_multiset_ok es (r_report c))
+         && doc_order_ok (normalized_stream c) (r_report c)
   end.
 
 Definition pathless_with_events (c : rcase14) (only_scen : bool) : bool :=
